@@ -46,6 +46,7 @@ var (
 	moneySz  = int(unsafe.Sizeof(ptttype.USEREC_RAW.Money))
 	levelOff = int(unsafe.Offsetof(ptttype.USEREC_RAW.UserLevel))
 	idOff    = int(unsafe.Offsetof(ptttype.USEREC_RAW.UserID))
+	idSz     = int(unsafe.Sizeof(ptttype.USEREC_RAW.UserID))
 
 	// the record copies the "caller" holds: slot -> the struct ptt.GetUser returned at the last `load`
 	stale = map[int64]*ptttype.UserecRaw{}
@@ -358,7 +359,35 @@ func (p *oracle) judge(i int, line, kind string, u, m int64, panicked bool, ret 
 	f, fok := readFile()
 	valid := inArr(u)
 	if !p.judged {
-		// malformed .PASSWDS (missing, short, long, torn): compared with the model only
+		// malformed .PASSWDS (missing, short, long, torn): the file clauses are compared with the model only; the
+		// balance in SHM must still follow plain arithmetic on every valid slot (it does not depend on the file)
+		if valid && !panicked {
+			cur := p.bal[u]
+			switch kind {
+			case "get":
+				if ret != cur {
+					run.Fail(i, "mismatch:arith", fmt.Sprintf("%s returned %d, Shm.Money of the slot holds %d (a .PASSWDS with fewer records than MAX_USERS does not make a valid slot empty)", line, ret, cur))
+				}
+			case "set", "de":
+				exp, known := m, true
+				if kind == "de" {
+					switch {
+					case m == minI:
+						known = false
+					case m < 0 && cur < -m:
+						exp = 0
+					default:
+						exp = cur + m
+					}
+					if exp < minI || exp > maxI {
+						known = false
+					}
+				}
+				if known && int64(arr[u-1]) != exp {
+					run.Fail(i, "mismatch:arith", fmt.Sprintf("%s with balance %d: plain arithmetic says %d, Shm.Money=%d", line, cur, exp, arr[u-1]))
+				}
+			}
+		}
 		if valid {
 			p.bal[u] = int64(arr[u-1])
 		}
@@ -711,6 +740,7 @@ func doReset(ws []string) (string, string) {
 		}
 		_ = os.Remove(ptttype.FN_PASSWD)
 		cache.Shm.Shm.Money = arr
+		ptttype.USE_COOLDOWN = true
 		P = oracle{have: true, judged: false}
 		stale = map[int64]*ptttype.UserecRaw{}
 		P.snapshot()
@@ -725,10 +755,17 @@ func doReset(ws []string) (string, string) {
 	for r, v := range disk {
 		binary.LittleEndian.PutUint32(f[recSize*r+moneyOff:], uint32(int32(v)))
 	}
+	// the user id of every complete record that belongs to a slot: the one the SHM user hash was loaded with
+	for u := 1; u <= nSlot && recSize*u <= len(f); u++ {
+		id := make([]byte, idSz)
+		copy(id, names[u])
+		copy(f[recSize*(u-1)+idOff:], id)
+	}
 	if err := os.WriteFile(ptttype.FN_PASSWD, f, 0o600); err != nil {
 		panic(err)
 	}
 	cache.Shm.Shm.Money = arr
+	ptttype.USE_COOLDOWN = true
 	P = oracle{have: true, judged: n == nSlot && tail == 0}
 	stale = map[int64]*ptttype.UserecRaw{}
 	if P.judged {
@@ -771,6 +808,18 @@ func exec(line string) (out, label string, res *result) {
 		if len(ws) == 7 && l != "bad-op" {
 			l += "+free"
 		}
+		return o, l, nil
+	case ws[0] == "config" && len(ws) == 2:
+		if !P.have || (ws[1] != "0" && ws[1] != "1") {
+			return "bad-op", "bad-op", nil
+		}
+		ptttype.USE_COOLDOWN = ws[1] == "1"
+		return "ok", "config:cooldown=" + ws[1], nil
+	case ws[0] == "loaduhash" && len(ws) == 2:
+		o, l := doLoadUHash(ws)
+		return o, l, nil
+	case ws[0] == "pokerec" && len(ws) == 4:
+		o, l := doPokeRec(ws)
 		return o, l, nil
 	case ws[0] == "resetconc" && len(ws) == 4:
 		o, l := doConc(ws)
@@ -880,6 +929,138 @@ func exec(line string) (out, label string, res *result) {
 }
 
 var opCount int // == the index hx.Run.Op is going to assign (every op goes through do)
+
+// refreshNames: the user ids the SHM holds now (after a load or reload of the user hash).
+func refreshNames() {
+	for u := 1; u <= nSlot; u++ {
+		names[u] = types.CstrToString(cache.Shm.Shm.Userid[u-1][:])
+	}
+	namesDirty = true
+}
+
+func cstrOf(b []byte) string {
+	if i := bytes.IndexByte(b, 0); i >= 0 {
+		b = b[:i]
+	}
+	return string(b)
+}
+
+// doLoadUHash: `loaduhash 0` = a fresh start (cache.Shm.Reset(), cache.LoadUHash()), `loaduhash 1` = an on-the-fly
+// reload (cache.LoadUHash() on the live segment), under the current ptttype.USE_COOLDOWN.
+// Oracle (complete .PASSWDS only): after a fresh load every slot's SHM money is its record's Money; after a reload
+// the slots whose owner changed hold their record's Money and all others keep their SHM value; the file is untouched.
+func doLoadUHash(ws []string) (string, string) {
+	if !P.have || (ws[1] != "0" && ws[1] != "1") {
+		return "bad-op", "bad-op"
+	}
+	onfly := ws[1] == "1"
+	line := strings.Join(ws, " ") + fmt.Sprintf(" (USE_COOLDOWN=%v)", ptttype.USE_COOLDOWN)
+	idsBefore := cache.Shm.Shm.Userid
+	shmBefore := shmNow()
+	if !onfly { // what Shm.Reset() leaves
+		idsBefore = [nSlot]ptttype.UserID_t{}
+		shmBefore = [nSlot]int32{}
+	}
+	var err error
+	if !onfly {
+		cache.Shm.Reset()
+	}
+	// LoadUHash fills a never-loaded segment from scratch and any other one on the fly
+	onfly = !(cache.Shm.Shm.Number == 0 && cache.Shm.Shm.Loaded == 0)
+	o := hx.CallSync(func() string {
+		err = cache.LoadUHash()
+		return ""
+	})
+	refreshNames()
+	cls := errClass(err)
+	if o == "PANIC" {
+		cls = "PANIC"
+	}
+	now := shmNow()
+	f, fok := readFile()
+	label := "loaduhash:fresh"
+	if onfly {
+		label = "loaduhash:onfly"
+	}
+	if !ptttype.USE_COOLDOWN {
+		label += ":nocooldown"
+	}
+	if P.judged && fok {
+		if cls != "ok" {
+			pendingFails = append(pendingFails, pending{"loader-failed", fmt.Sprintf("%s: %s %s", line, cls, hx.LastPanic)})
+		}
+		nChanged := 0
+		for u := int64(1); u <= MAX; u++ {
+			base := recSize * int(u-1)
+			changed := !onfly || cstrOf(f[base+idOff:base+idOff+idSz]) != cstrOf(idsBefore[u-1][:])
+			d, _ := diskMoney(f, u)
+			want := int64(shmBefore[u-1])
+			key, why := "frame:shm", "the owner of the slot did not change, the loader must leave its SHM money alone"
+			if changed {
+				nChanged++
+				want = d
+				key, why = "mismatch:shm-disk", "the slot was (re)filled from its record"
+			}
+			if int64(now[u-1]) != want {
+				pendingFails = append(pendingFails, pending{key, fmt.Sprintf("%s: slot %d: Shm.Money=%d, .PASSWDS money=%d, Shm.Money before=%d (%s)", line, u, now[u-1], d, shmBefore[u-1], why)})
+				break
+			}
+		}
+		if onfly && nChanged > 0 {
+			label += ":owner-changed"
+		}
+		if len(f) != len(P.prevFile) || !bytes.Equal(f, P.prevFile) {
+			pendingFails = append(pendingFails, pending{"frame", line + ": the loader changed .PASSWDS"})
+		}
+	} else {
+		label += ":unjudged-file"
+	}
+	for u := 1; u <= nSlot; u++ {
+		P.bal[u] = int64(now[u-1])
+		P.nonneg[u] = now[u-1] >= 0
+	}
+	P.snapshot()
+	ids := cache.Shm.Shm.Userid
+	var flat []byte
+	for i := range ids {
+		flat = append(flat, ids[i][:]...)
+	}
+	filed := "len=- rest=-"
+	if fok {
+		filed = fmt.Sprintf("len=%d rest=%s", len(f), fnv(f))
+	}
+	if cls != "ok" {
+		label += ":" + cls
+	}
+	return fmt.Sprintf("%s idd=%s shmd=%s %s", cls, fnv(flat), shmDigest(now), filed), label
+}
+
+// doPokeRec: `pokerec u <id|-|=> money`: an edit of .PASSWDS by somebody else (a maintenance tool): not code under test.
+func doPokeRec(ws []string) (string, string) {
+	u, ok1 := parseI32(ws[1])
+	m, ok2 := parseI32(ws[3])
+	f, fok := readFile()
+	if !P.have || !ok1 || !ok2 || !fok || !inArr(u) || recSize*int(u) > len(f) {
+		return "bad-op", "bad-op"
+	}
+	if !(ws[2] == "-" || ws[2] == "=" || reIdent.MatchString(ws[2])) {
+		return "bad-op", "bad-op"
+	}
+	base := recSize * int(u-1)
+	if ws[2] != "=" {
+		id := make([]byte, idSz)
+		if ws[2] != "-" {
+			copy(id, ws[2])
+		}
+		copy(f[base+idOff:], id)
+	}
+	binary.LittleEndian.PutUint32(f[base+moneyOff:], uint32(int32(m)))
+	if err := os.WriteFile(ptttype.FN_PASSWD, f, 0o600); err != nil {
+		panic(err)
+	}
+	P.snapshot()
+	return "ok " + observe2(u), "pokerec"
+}
 
 // newUserRec: the registration record (deterministic: no wall-clock fields).
 func newUserRec(id string, m int64) *ptttype.UserecRaw {
@@ -1383,7 +1564,7 @@ func do(line string) {
 			label += ":" + res.errc
 		}
 	}
-	if got := run.Op(line, out, label, res != nil || strings.HasPrefix(label, "conc")); got != i {
+	if got := run.Op(line, out, label, res != nil || strings.HasPrefix(label, "conc") || strings.HasPrefix(label, "loaduhash")); got != i {
 		panic("c20: op index out of step")
 	}
 	opCount++
@@ -1399,12 +1580,14 @@ func main() {
 		os.Exit(2)
 	}
 	defer env.Close()
+	defer func() { ptttype.USE_COOLDOWN = true }()
 	setupNames(nil)
 	run.Rule = "histories `reset; ops` on a generated .PASSWDS of MAX_USERS records (LCG filler, per-slot money) with the SHM money array set per slot. " +
 		"single-op shapes enumerated smallest first: slots {1,2,MAX-1,MAX,0,-1,MAX+1,int32 limits} x start balances {0,1,1000,2^31-2,2^31-1,-1,-1000,-2^31} x {set,de} x amounts {0,+-1,+-b,+-(b+1),2^31-1-b,2^31-b (overflow),int32 limits}, each followed by get; " +
 		"random histories of 3..40 ops with amounts chosen relative to the current balance (floor, exact, near-limit, rare overflow), unsynced and negative starts; " +
 		"whole-record writes: `permupdate u staleMoney perm` = ptt.SetUserPerm with the record kept at the last `load u` (a zero record otherwise) whose Money is set to staleMoney first, after credits/debits/sets, on all slot classes; `syncquery`/`load` = ptt.GetUser; " +
 		"registrations: `reset ... free=<slots>` leaves those slots without a user id (their SHM/disk money poked to 0, a leftover balance, or only one of the two), `newuser id startMoney` = ptt.SetupNewUser, the slot it got is observed in the SHM user hash and written into the op line together with the record; " +
+		"loader: `config 0|1` sets ptttype.USE_COOLDOWN for the history, `loaduhash 0` = Shm.Reset()+cache.LoadUHash() (fresh start), `loaduhash 1` = cache.LoadUHash() on the live segment (on-the-fly), `pokerec u id money` = an external edit of a record (owner change / money only / vacated); fresh starts on tables with balances, reloads after owner changes, followed by credits, debits, whole-record writes and registrations, under both configuration values; " +
 		"malformed stream: missing/short/long/torn .PASSWDS (recorded, not judged), ill-formed op lines. nontrivial = set/de/get that reached the real function; overflow and MoneyOf(invalid) cases are recorded and compared with the model, not judged"
 	if run.Replay != "" {
 		for _, l := range hx.ReplayOps(run.Replay) {
